@@ -629,7 +629,7 @@ class Watcher(object):
 
         Return True if ok, False if the watcher must be stopped
         """
-        if self.is_stopped():
+        if self.is_stopped() or self.is_stopping():
             return True
 
         if not recovery_wid and not self.call_hook('before_spawn'):
